@@ -137,43 +137,81 @@ macro_rules! with_pad {
 
 use cipher::{BlockModeDecBackend, BlockModeDecClosure, BlockModeEncBackend, BlockModeEncClosure, StreamCipherBackend, StreamCipherClosure, crypto_common::BlockSizes};
 
+/// Shapes of a caller-supplied closure (`mode`), all of them legitimate uses of the backend traits:
+/// 1 = full groups through `*_par_blocks`, remainder block by block through `*_block`;
+/// 2 = full groups through `*_par_blocks`, remainder through `*_tail_blocks` only if it is non-empty;
+/// 3 = as 1 through the `*_inplace` methods; 4 = as 2 through the `*_inplace` methods;
+/// 5 = every block through `*_block`, never the parallel methods;
+/// 6 = one block through `*_block_inplace` first, then as 2 on the rest (groups not aligned with the call).
 pub struct UserBlocks<'a, BS: BlockSizes> {
-    pub blocks: InOutBuf<'a, 'a, Array<u8, BS>>,
+    pub blocks: &'a mut [Array<u8, BS>],
     pub mode: u8,
 }
 impl<BS: BlockSizes> BlockSizeUser for UserBlocks<'_, BS> {
     type BlockSize = BS;
 }
+macro_rules! user_blocks_call {
+    ($self:ident, $backend:ident, $B:ident, $block:ident, $par:ident, $tail:ident, $block_ip:ident, $par_ip:ident, $tail_ip:ident) => {{
+        let mut blocks = $self.blocks;
+        let mode = $self.mode;
+        if mode == 5 {
+            for b in blocks {
+                $backend.$block(b.into());
+            }
+            return;
+        }
+        if mode == 6 {
+            match blocks.split_first_mut() {
+                Some((first, rest)) => {
+                    $backend.$block_ip(first);
+                    blocks = rest;
+                }
+                None => return,
+            }
+        }
+        let (groups, tail) = Array::<Array<u8, BS>, $B::ParBlocksSize>::slice_as_chunks_mut(blocks);
+        for g in groups {
+            if mode == 3 || mode == 4 {
+                $backend.$par_ip(g);
+            } else {
+                $backend.$par(g.into());
+            }
+        }
+        match mode {
+            1 => {
+                for b in tail {
+                    $backend.$block(b.into());
+                }
+            }
+            3 => {
+                for b in tail {
+                    $backend.$block_ip(b);
+                }
+            }
+            4 => {
+                if !tail.is_empty() {
+                    $backend.$tail_ip(tail);
+                }
+            }
+            _ => {
+                if !tail.is_empty() {
+                    $backend.$tail(tail.into());
+                }
+            }
+        }
+    }};
+}
 impl<BS: BlockSizes> BlockModeEncClosure for UserBlocks<'_, BS> {
     fn call<B: BlockModeEncBackend<BlockSize = BS>>(self, backend: &mut B) {
-        let (groups, tail) = self.blocks.into_chunks::<B::ParBlocksSize>();
-        for g in groups {
-            backend.encrypt_par_blocks(g);
-        }
-        if self.mode == 1 {
-            for b in tail {
-                backend.encrypt_block(b);
-            }
-        } else if !tail.is_empty() {
-            backend.encrypt_tail_blocks(tail);
-        }
+        user_blocks_call!(self, backend, B, encrypt_block, encrypt_par_blocks, encrypt_tail_blocks, encrypt_block_inplace, encrypt_par_blocks_inplace, encrypt_tail_blocks_inplace)
     }
 }
 impl<BS: BlockSizes> BlockModeDecClosure for UserBlocks<'_, BS> {
     fn call<B: BlockModeDecBackend<BlockSize = BS>>(self, backend: &mut B) {
-        let (groups, tail) = self.blocks.into_chunks::<B::ParBlocksSize>();
-        for g in groups {
-            backend.decrypt_par_blocks(g);
-        }
-        if self.mode == 1 {
-            for b in tail {
-                backend.decrypt_block(b);
-            }
-        } else if !tail.is_empty() {
-            backend.decrypt_tail_blocks(tail);
-        }
+        user_blocks_call!(self, backend, B, decrypt_block, decrypt_par_blocks, decrypt_tail_blocks, decrypt_block_inplace, decrypt_par_blocks_inplace, decrypt_tail_blocks_inplace)
     }
 }
+/// keystream closures: modes 1, 2, 5, 6 as above (the stream backend has no `*_inplace` methods; 3 / 4 behave as 1 / 2)
 pub struct UserKeystream<'a, BS: BlockSizes> {
     pub blocks: &'a mut [Array<u8, BS>],
     pub mode: u8,
@@ -183,11 +221,28 @@ impl<BS: BlockSizes> BlockSizeUser for UserKeystream<'_, BS> {
 }
 impl<BS: BlockSizes> StreamCipherClosure for UserKeystream<'_, BS> {
     fn call<B: StreamCipherBackend<BlockSize = BS>>(self, backend: &mut B) {
-        let (groups, tail) = Array::<Array<u8, BS>, B::ParBlocksSize>::slice_as_chunks_mut(self.blocks);
+        let mut blocks = self.blocks;
+        let mode = self.mode;
+        if mode == 5 {
+            for b in blocks {
+                backend.gen_ks_block(b);
+            }
+            return;
+        }
+        if mode == 6 {
+            match blocks.split_first_mut() {
+                Some((first, rest)) => {
+                    backend.gen_ks_block(first);
+                    blocks = rest;
+                }
+                None => return,
+            }
+        }
+        let (groups, tail) = Array::<Array<u8, BS>, B::ParBlocksSize>::slice_as_chunks_mut(blocks);
         for g in groups {
             backend.gen_par_ks_blocks(g);
         }
-        if self.mode == 1 {
+        if mode == 1 || mode == 3 {
             for b in tail {
                 backend.gen_ks_block(b);
             }
@@ -236,7 +291,7 @@ macro_rules! impl_block_mode {
             }
             fn many_closure(&mut self, mode: u8, buf: &mut [u8]) {
                 let b = blocks_mut::<M::BlockSize>(buf);
-                self.0.encrypt_with_backend(UserBlocks { blocks: b.into(), mode });
+                self.0.encrypt_with_backend(UserBlocks { blocks: b, mode });
             }
             fn iv_state(&self) -> Vec<u8> {
                 self.0.iv_state().to_vec()
@@ -308,7 +363,7 @@ macro_rules! impl_block_mode {
             }
             fn many_closure(&mut self, mode: u8, buf: &mut [u8]) {
                 let b = blocks_mut::<M::BlockSize>(buf);
-                self.0.decrypt_with_backend(UserBlocks { blocks: b.into(), mode });
+                self.0.decrypt_with_backend(UserBlocks { blocks: b, mode });
             }
             fn iv_state(&self) -> Vec<u8> {
                 self.0.iv_state().to_vec()
